@@ -173,7 +173,7 @@ func c46ClearsignSplits(m *mon.M, ks *keyset) {
 func c46SplitGates(m *mon.M) {
 	m.Gate("chunked_writes:armor.Encode", m.N(3000, 100000), "multi-Write bodies through a reused, scribbled buffer")
 	m.Gate("two_chunk_splits:armor.Encode", m.N(1000, 50000), "every two-chunk split of short bodies")
-	m.Gate("chunked_writes:clearsign.Encode", m.N(1200, 40000), "multi-Write texts through a reused, scribbled buffer")
+	m.Gate("chunked_writes:clearsign.Encode", m.N(1000, 40000), "multi-Write texts through a reused, scribbled buffer")
 	m.Gate("two_chunk_splits:clearsign.Encode", m.N(300, 12000), "every two-chunk split of short texts")
 	m.Gate("chunk_ends_after_lone_midline_whitespace:clearsign.Encode", m.N(60, 2500), "a chunk ends right after a lone mid-line space/tab/CR and the buffer is overwritten before the next Write")
 	m.Gate("chunk_ends_after_whitespace:clearsign.Encode", m.N(200, 8000), "a chunk ends right after space/tab/CR")
